@@ -1255,7 +1255,7 @@ class Corr:
     def __pow__(self, y):
         if isinstance(y, (Obs, int, float, CObs)):
             newcontent = [None if _check_for_none(self, item) else item**y for item in self.content]
-            return Corr(newcontent, prange=self.prange)
+            return Corr(self._nan_to_none(newcontent), prange=self.prange)
         else:
             raise TypeError('Type of exponent not supported')
 
@@ -1269,14 +1269,13 @@ class Corr:
 
     def log(self):
         newcontent = [None if _check_for_none(self, item) else np.log(item) for item in self.content]
-        return Corr(newcontent, prange=self.prange)
+        return Corr(self._nan_to_none(newcontent), prange=self.prange)
 
     def exp(self):
         newcontent = [None if _check_for_none(self, item) else np.exp(item) for item in self.content]
         return Corr(newcontent, prange=self.prange)
 
-    def _apply_func_to_corr(self, func):
-        newcontent = [None if _check_for_none(self, item) else func(item) for item in self.content]
+    def _nan_to_none(self, newcontent):
         for t in range(self.T):
             if _check_for_none(self, newcontent[t]):
                 continue
@@ -1286,7 +1285,11 @@ class Corr:
                     newcontent[t] = None
         if all([item is None for item in newcontent]):
             raise ValueError('Operation returns undefined correlator')
-        return Corr(newcontent)
+        return newcontent
+
+    def _apply_func_to_corr(self, func):
+        newcontent = [None if _check_for_none(self, item) else func(item) for item in self.content]
+        return Corr(self._nan_to_none(newcontent))
 
     def sin(self):
         return self._apply_func_to_corr(np.sin)
